@@ -1397,6 +1397,18 @@ fn main() {
     res.rule = "scenario = 2..6 actors (sessions with tool envelopes bash/shell/write/apply_patch/unknown/read/ls/grep/artifact_fetch, checkpoint create/rewind, pipes/pty tasks; attached to one thread or not) driven in lock step at the ws.* hook points + FIFO-blocked commands; the Go sequence is drawn on line (2:1 in favour of moving somebody else while the lock is held, i.e. overlap attempts); non-trivial = at least one blocked attempt or a read-only call completed while a mutating call was running; distinct by (actors, Go sequence)".into();
     let n: usize = a.extra.get("n").and_then(|v| v.parse().ok()).unwrap_or(if a.thorough() { 500 } else { 50 });
     let settle = Duration::from_millis(a.extra.get("settle-ms").and_then(|v| v.parse().ok()).unwrap_or(250));
+    // scratch dirs of earlier runs that were killed (watchdog of the driver): remove them
+    if let Ok(rd) = std::fs::read_dir("/var/tmp") {
+        for e in rd.flatten() {
+            let name = e.file_name().to_string_lossy().to_string();
+            let mut it = name.split('-');
+            if let (Some("rv"), Some(pid), Some("c11")) = (it.next(), it.next(), it.next()) {
+                if pid.parse::<u32>().map(|p| !Path::new(&format!("/proc/{p}")).exists()).unwrap_or(false) {
+                    let _ = std::fs::remove_dir_all(e.path());
+                }
+            }
+        }
+    }
     let rt = tokio::runtime::Builder::new_multi_thread().worker_threads(24).enable_all().build().expect("runtime");
     let ctl = Arc::new(Ctl { mu: Mutex::new(CtlInner::default()), cv: Condvar::new() });
     {
